@@ -108,7 +108,7 @@ class Gen(object):
             for _ in range(r.randint(2, 4)):
                 reg = p.add(El("state", {"id": self.new_id("s")}))
                 for _ in range(r.choice([1, 1, 2, 2, 3])):
-                    if r.random() < 0.25:
+                    if r.random() < 0.35:
                         q = reg.add(El("parallel", {"id": self.new_id("p")}))
                         for _ in range(2):
                             q.add(El("state", {"id": self.new_id("s")}))
@@ -226,7 +226,7 @@ class Gen(object):
         r = self.r
         at = {}
         x = r.random()
-        eventless = self.f["eventless"] and x < 0.22
+        eventless = self.f["eventless"] and x < (0.22 if not self.f["par_bias"] else 0.08)
         if not eventless:
             d = r.choice(DESCRIPTORS if not self.f["small_alphabet"] else ["a", "b", "a", "b", "a.x", "a b", "*"])
             if self.f["done_events"] and r.random() < 0.15:
@@ -237,9 +237,9 @@ class Gen(object):
         order = {id(e): n for n, e in enumerate(self.root.walk())}
         y = r.random()
         targets = None
-        if self.f["targetless"] and y < (0.1 if not self.f["par_bias"] else 0.25) and not eventless:
+        if self.f["targetless"] and y < (0.1 if not self.f["par_bias"] else 0.4) and not eventless:
             targets = []
-        elif self.f["multitarget"] and y < 0.2:
+        elif self.f["multitarget"] and y < 0.2 and not (eventless and self.f["par_bias"]):
             targets = self.orthogonal_targets()
         if targets is None:
             cands = all_targets
@@ -254,6 +254,12 @@ class Gen(object):
             if eventless:
                 # forward edges only: bounds eventless chains
                 cands = [t for t in all_targets if order[id(t)] > order[id(s)] and not self._is_desc(t, s)] or None
+                if cands and self.f["par_bias"]:
+                    # leaving the region re-enters the whole parallel and with it the source: an endless loop
+                    reg = s
+                    while reg.parent is not None and reg.parent.tag != "parallel":
+                        reg = reg.parent
+                    cands = [t for t in cands if self._is_desc(t, reg)] or None
                 if cands is None:
                     return
             targets = [r.choice(cands)]
@@ -294,7 +300,7 @@ class Gen(object):
             kinds += ["if"]
         k = r.choice(kinds)
         if k == "raise":
-            blk.add(El("raise", {"event": r.choice(INT_EVENTS + ["a", "b"])}))
+            blk.add(El("raise", {"event": r.choice(INT_EVENTS + ["a", "b"]) if not self.f["par_bias"] else r.choice(INT_EVENTS * 4 + ["a", "b"])}))
         elif k == "log":
             self.nlog += 1
             at = {"label": "L%d" % self.nlog}
